@@ -459,6 +459,9 @@ pub struct Prog {
     /// for the generics family: name of the generic function called in `main` (model-based
     /// classification of unify findings)
     pub generic_fn: Option<String>,
+    /// for the declared-return family: the declared result type of `f` (source); the value of
+    /// `{ARG} f` must inhabit it as well
+    pub declared_ret: Option<String>,
 }
 
 impl Prog {
